@@ -220,6 +220,8 @@ def run(tier, rep):
                     key = 'coefficient-radius-exceeded'
                 elif 2 * k == o['m']:
                     key = 'coefficient-nyquist'
+                if key.startswith('coefficient-'):
+                    key = key + ':' + name         # known findings are listed per failing input (tools/gen_known_c17.py), not per region
                 rep.violation(key, dict(case=name, k=k, error=o['err'][k], error_estimate=o['est'][k], floor=floor, exact_abs=o['exact'][k], R=o['R']),
                               '%s: coefficient %d is off by %.3g, error_estimate %.3g, FFT floor %.3g (|exact| = %.3g)' % (name, k, o['err'][k], o['est'][k], floor, o['exact'][k]))
                 break
